@@ -323,110 +323,94 @@ Proof.
   unfold us_sec. rewrite Z.div_mul by lia. lia.
 Qed.
 
-(* ------------------------------------------------------------ 365/366-day calendars: the sub-domain that is right *)
-Lemma yearlike_md : forall leap j0, 0 <= j0 < fixed_len leap ->
-  md_of_days (jan1 (if leap then 1972 else 1970) + j0) = md_of_doy leap (j0 + 1).
+(* ------------------------------------------------------------ 365/366-day calendars (repaired branch) *)
+Lemma fixed_us_of_fixed_fields : forall leap t, fixed_us_of_fields leap (fixed_fields leap t) = Some t.
 Proof.
-  intros leap j0 H. unfold md_of_days, civil_of_days.
-  set (Y := if leap then 1972 else 1970).
-  replace (jan1 Y + j0) with (days_of_yj Y (j0 + 1)) by (unfold days_of_yj; lia).
-  assert (L : is_leap Y = leap) by (subst Y; destruct leap; reflexivity).
-  rewrite yj_of_days_of_yj.
-  - rewrite L. destruct (md_of_doy leap (j0 + 1)). reflexivity.
-  - unfold valid_yj, year_len. rewrite L. fold (fixed_len leap).
-    apply andb_true_iff; split; apply Z.leb_le; lia.
+  intros leap t. unfold fixed_fields.
+  pose proof (days_of_fixed_of_days leap (t / us_day)) as H.
+  destruct (fixed_of_days leap (t / us_day)) as [[y m] d]. destruct H as [H1 H2].
+  unfold fixed_us_of_fields. rewrite H2. cbn [andb].
+  set (r := t mod us_day).
+  assert (Hr : 0 <= r < us_day) by (subst r; apply Z.mod_pos_bound; unfold us_day; lia).
+  unfold us_day in *.
+  assert (V : valid_tod (r / 3600000000) (r mod 3600000000 / 60000000) (r mod 60000000 / 1000000) = true).
+  { unfold valid_tod. repeat (apply andb_true_iff; split); rewrite ?Z.leb_le, ?Z.ltb_lt; lia. }
+  rewrite V. cbn [andb].
+  assert (U : ((0 <=? r mod 1000000) && (r mod 1000000 <? 1000000)) = true).
+  { apply andb_true_iff; split; rewrite ?Z.leb_le, ?Z.ltb_lt; lia. }
+  rewrite U. f_equal. rewrite H1. unfold us_sec. subst r. lia.
 Qed.
 
-
-Ltac fold_consts := repeat match goal with
-  | |- context [Z.div (Zpos ?a) (Zpos ?b)] =>
-      let c := eval vm_compute in (Z.div (Zpos a) (Zpos b)) in change (Z.div (Zpos a) (Zpos b)) with c
-  | |- context [Z.mul (Zpos ?a) (Zpos ?b)] =>
-      let c := eval vm_compute in (Z.mul (Zpos a) (Zpos b)) in change (Z.mul (Zpos a) (Zpos b)) with c
-  | |- context [Z.mul Z0 (Zpos ?b)] => change (Z.mul Z0 (Zpos b)) with 0
-  end.
-
-Definition wd_f (u : unit_t) : Z := match u with UHours => 24 | UMinutes => 1440 | _ => 1 end.
-
-Lemma whole_days_elem : forall leap u n, whole_days u n = true ->
-  let N := fixed_len leap in let D := n / (64 * wd_f u) in
-  fx_elem false leap u 0 n = Some (D / N, (D mod N) * us_day)
-  /\ exists k, unit_us64 u = Some k /\ n * k = D * us_day.
+Lemma all_some_cons_inv {A} (x : option A) (l : list (option A)) out :
+  all_some (x :: l) = Some out -> exists a r, x = Some a /\ all_some l = Some r /\ out = a :: r.
 Proof.
-  intros leap u n W. unfold whole_days in W. unfold fx_elem, fx_frac, us_day.
-  destruct u; try discriminate W; cbn [fx_mult wd_f unit_us64 andb]; apply Z.eqb_eq in W;
-    (split; [|eexists; split; [reflexivity|fold_consts; lia]]);
-    destruct leap; cbn [fixed_len]; fold_consts; f_equal; f_equal; lia.
+  simpl. destruct x as [a|]; [|discriminate]. destruct (all_some l) as [r|]; [|discriminate].
+  intros H. injection H as <-. exists a, r. repeat split.
 Qed.
 
-Lemma fixed_row : forall leap y0 D,
-  let N := fixed_len leap in
-  let row := fixed_fields leap ((days_of_fixed leap y0 1 1 * 86400 + 0 * 3600 + 0 * 60 + 0 - 0 * 60) * us_sec + D * us_day) in
-  row_ok row = true ->
-  fx_primary leap y0 (D / N, (D mod N) * us_day) = Some row.
+(* whenever the repaired branch returns, every row denotes ref + value * unit in the file's calendar
+   and is a date that datetime can hold *)
+Lemma cf_fixed_correct : forall leap u r vals out,
+  impl_cf_fixed leap u r vals = Some out ->
+  exists p k, impl_parse r = Some p /\ fx_unit_us64 leap u = Some k
+    /\ all_some (map (fixed_us_of_fields leap) out) = Some (map (fun n => fixed_ref_us leap p + n * k) vals)
+    /\ forallb row_ok out = true.
 Proof.
-  intros leap y0 D N row. subst row.
-  assert (NB : N = 365 \/ N = 366) by (subst N; destruct leap; simpl; lia).
-  assert (T : (days_of_fixed leap y0 1 1 * 86400 + 0 * 3600 + 0 * 60 + 0 - 0 * 60) * us_sec + D * us_day
-              = (y0 * N + D) * us_day).
-  { unfold days_of_fixed. fold N. replace (doy_of_md leap 1 1) with 1 by (destruct leap; reflexivity).
-    unfold us_sec, us_day. lia. }
-  rewrite T. unfold fixed_fields.
-  replace ((y0 * N + D) * us_day / us_day) with (y0 * N + D) by (unfold us_day; lia).
-  replace ((y0 * N + D) * us_day mod us_day) with 0 by (unfold us_day; lia).
-  unfold fixed_of_days. fold N.
-  replace ((y0 * N + D) / N) with (y0 + D / N) by (destruct NB as [-> | ->]; lia).
-  replace ((y0 * N + D) mod N) with (D mod N) by (destruct NB as [-> | ->]; lia).
-  unfold fx_primary.
-  replace (D mod N * us_day / us_day) with (D mod N) by (unfold us_day; lia).
-  rewrite yearlike_md by (fold N; destruct NB as [-> | ->]; lia).
-  destruct (md_of_doy leap (D mod N + 1)) as [m d].
-  change (0 / 3600000000) with 0. change (0 mod 3600000000 / 60000000) with 0.
-  change (0 mod 60000000 / 1000000) with 0. change (0 mod 1000000) with 0.
-  unfold row_ok. intros R. rewrite R. reflexivity.
+  intros leap u r vals out H. unfold impl_cf_fixed in H.
+  destruct (impl_parse r) as [p|]; [|discriminate].
+  destruct (fx_unit_us64 leap u) as [k|]; [|discriminate].
+  exists p, k. split; [reflexivity|]. split; [reflexivity|].
+  destruct p as [[[[[[y0 m0] d0] hh] mi] ss] tz].
+  destruct (valid_md leap m0 d0); [|discriminate].
+  revert out H. induction vals as [|n vals IH]; intros out H.
+  - injection H as <-. split; reflexivity.
+  - cbn [map] in H. apply all_some_cons_inv in H as [a [rest [Ha [Hr ->]]]].
+    destruct (row_ok (fixed_fields leap (fixed_ref_us leap (y0, m0, d0, hh, mi, ss, tz) + n * k))) eqn:R;
+      [|discriminate Ha].
+    injection Ha as <-. destruct (IH rest Hr) as [A B]. split.
+    + cbn [map all_some]. rewrite fixed_us_of_fixed_fields, A. reflexivity.
+    + change (row_ok (fixed_fields leap (fixed_ref_us leap (y0, m0, d0, hh, mi, ss, tz) + n * k))
+              && forallb row_ok rest = true).
+      rewrite R, B. reflexivity.
 Qed.
 
-Lemma dom_fixed_parse : forall u r vals, dom_fixed u r vals = true ->
-  exists y0, impl_parse r = Some (y0, 1, 1, 0, 0, 0, 0) /\ forallb (whole_days u) vals = true.
+(* for the CF units it equals the specification, in both directions *)
+Lemma cf_fixed_spec : forall leap u r vals out,
+  match u with UYears => False | _ => True end ->
+  impl_cf_fixed leap u r vals = Some out -> spec_cf_fixed leap u r vals = Some out.
 Proof.
-  intros u r vals H. unfold dom_fixed in H. apply andb_true_iff in H as [H1 H2].
-  unfold ref_is_jan1_midnight in H1.
-  destruct (impl_parse r) as [[[[[[[y m] d] hh] mi] ss] tz]|]; [|discriminate].
-  apply andb_true_iff in H1 as [H1 A6]. apply andb_true_iff in H1 as [H1 A5].
-  apply andb_true_iff in H1 as [H1 A4]. apply andb_true_iff in H1 as [H1 A3].
-  apply andb_true_iff in H1 as [A1 A2].
-  apply Z.eqb_eq in A1, A2, A3, A4, A5, A6. subst. exists y. tauto.
+  intros leap u r vals out Hu H. unfold impl_cf_fixed in H. unfold spec_cf_fixed.
+  assert (K : fx_unit_us64 leap u = unit_us64 u) by (destruct u; try reflexivity; destruct Hu).
+  rewrite K in H.
+  destruct (impl_parse r) as [p|]; [|discriminate].
+  destruct (unit_us64 u) as [k|]; [|discriminate].
+  destruct p as [[[[[[y0 m0] d0] hh] mi] ss] tz].
+  destruct (valid_md leap m0 d0); [|discriminate]. f_equal.
+  revert out H. induction vals as [|n vals IH]; intros out H.
+  - injection H as <-. reflexivity.
+  - cbn [map] in H. apply all_some_cons_inv in H as [a [rest [Ha [Hr ->]]]].
+    destruct (row_ok (fixed_fields leap (fixed_ref_us leap (y0, m0, d0, hh, mi, ss, tz) + n * k)));
+      [|discriminate Ha].
+    injection Ha as <-. cbn [map]. f_equal. apply IH. exact Hr.
 Qed.
 
-Lemma cf_fixed_partial : forall leap u r vals sp,
-  dom_fixed u r vals = true ->
+Lemma cf_fixed_total : forall leap u r vals sp,
   spec_cf_fixed leap u r vals = Some sp -> forallb row_ok sp = true ->
   impl_cf_fixed leap u r vals = Some sp.
 Proof.
-  intros leap u r vals sp Dm Sp Ok.
-  destruct (dom_fixed_parse _ _ _ Dm) as [y0 [E W]].
-  unfold impl_cf_fixed, impl_cf_fixed_gen. unfold spec_cf_fixed in Sp. rewrite E in *.
-  assert (V11 : valid_md leap 1 1 = true) by (destruct leap; reflexivity).
-  rewrite V11 in *.
-  replace (fx_k0 leap 1 1) with 0 by reflexivity.
-  set (N := fixed_len leap).
-  set (Dof := fun n => n / (64 * wd_f u)).
-  assert (EL : all_some (map (fx_elem false leap u 0) vals)
-               = Some (map (fun n => (Dof n / N, (Dof n mod N) * us_day)) vals)).
-  { apply all_some_map_ext. intros n Hn. rewrite forallb_forall in W.
-    destruct (whole_days_elem leap u n (W n Hn)) as [A _]. exact A. }
-  rewrite EL.
-  destruct (unit_us64 u) as [k|] eqn:K; [|discriminate Sp].
-  injection Sp as <-.
-  assert (PR : all_some (map (fx_primary leap y0) (map (fun n => (Dof n / N, (Dof n mod N) * us_day)) vals))
-               = Some (map (fun n => fixed_fields leap (fixed_ref_us leap (y0, 1, 1, 0, 0, 0, 0) + n * k)) vals)).
-  { rewrite map_map. apply all_some_map_ext. intros n Hn.
-    rewrite forallb_forall in W, Ok.
-    destruct (whole_days_elem leap u n (W n Hn)) as [_ [k' [K' Q]]].
-    assert (k' = k) by congruence. subst k'.
-    unfold fixed_ref_us. rewrite Q. apply fixed_row.
-    unfold fixed_ref_us in Ok. rewrite <- Q. apply Ok. apply in_map_iff. exists n. tauto. }
-  rewrite PR. reflexivity.
+  intros leap u r vals sp Sp Ok. unfold spec_cf_fixed in Sp. unfold impl_cf_fixed.
+  destruct (impl_parse r) as [p|]; [|discriminate].
+  destruct (unit_us64 u) as [k|] eqn:K; [|discriminate].
+  assert (K2 : fx_unit_us64 leap u = Some k) by (destruct u; try discriminate K; exact K).
+  rewrite K2.
+  destruct p as [[[[[[y0 m0] d0] hh] mi] ss] tz].
+  destruct (valid_md leap m0 d0); [|discriminate]. injection Sp as <-.
+  set (F := fun n => fixed_fields leap (fixed_ref_us leap (y0, m0, d0, hh, mi, ss, tz) + n * k)) in *.
+  change (all_some (map (fun n => if row_ok (F n) then Some (F n) else None) vals) = Some (map F vals)).
+  change (forallb row_ok (map F vals) = true) in Ok. clearbody F.
+  induction vals as [|n vals IH]; [reflexivity|].
+  cbn [map forallb] in Ok. apply andb_true_iff in Ok as [O1 O2].
+  cbn [map all_some]. rewrite O1, (IH O2). reflexivity.
 Qed.
 
 (* the last edge of the synthesised time_bounds is the last instant plus the step *)
